@@ -43,6 +43,7 @@ const (
 )
 
 type stepTracer struct {
+	failStep *implStep // the instruction that did not pass the pre-execution checks (state as it was then)
 	steps    []implStep
 	faultPC  int64 // pc of an instruction whose execution (not its pre-checks) returned an error; -1 none
 	badWord  string
@@ -53,7 +54,7 @@ func (t *stepTracer) CaptureStart(from, to common.Address, create bool, input []
 	return nil
 }
 func (t *stepTracer) CaptureState(env *vm.EVM, pc uint64, op vm.OpCode, gas, cost uint64, memory *vm.Memory, stack *vm.Stack, contract *vm.Contract, depth int, err error) error {
-	if err != nil || depth != 1 {
+	if depth != 1 {
 		return nil
 	}
 	st := implStep{pc: pc, op: byte(op), gas: gas, cost: cost, memLen: memory.Len()}
@@ -68,6 +69,10 @@ func (t *stepTracer) CaptureState(env *vm.EVM, pc uint64, op vm.OpCode, gas, cos
 			t.badWord = fmt.Sprintf("stack[top-%d]=%s at pc=%d", len(data)-1-i, v.String(), pc)
 		}
 		st.stack[i] = new(big.Int).Set(v)
+	}
+	if err != nil {
+		t.failStep = &st
+		return nil
 	}
 	if st.memLen <= memCopyLimit {
 		st.mem = append([]byte{}, memory.Data()...)
@@ -128,7 +133,7 @@ func runImpl(c Case, w *warmCtx) (out implOut) {
 	var evm *vm.EVM
 	if w != nil {
 		tr, evm = w.tr, w.evm
-		tr.steps, tr.faultPC, tr.badWord = tr.steps[:0], -1, ""
+		tr.steps, tr.faultPC, tr.badWord, tr.failStep = tr.steps[:0], -1, "", nil
 		evm.StateDB = st
 	} else {
 		tr = &stepTracer{faultPC: -1}
@@ -252,8 +257,42 @@ func compare(c Case, warm bool) (*Mismatch, *refevm.Result, *implOut) {
 			in = append(in, new(big.Int).Set(s.Stack[len(s.Stack)-1-i]))
 		}
 		defer func() { prevOp, prevIn, havePrev = s.Op, in, true }()
+		// state produced by the previous instruction
+		pre := func(what, exp, got string) {
+			o, oin := prevOp, prevIn
+			if !havePrev {
+				o, oin = s.Op, in
+			}
+			mm = &Mismatch{Oracle: "result", Op: o, In: oin, Step: s.Index - 1, Expect: what + " " + exp, Got: what + " " + got}
+		}
+		preState := func(is *implStep) bool { // true: the state before this instruction differs
+			if is.pc != s.PC || is.op != s.Op {
+				pre("next pc/op", fmt.Sprintf("%d/%s", s.PC, opName(s.Op)), fmt.Sprintf("%d/%s", is.pc, opName(is.op)))
+				return true
+			}
+			if is.stackLen != len(s.Stack) {
+				pre("stack", stackStr(s.Stack), fmt.Sprintf("len=%d", is.stackLen))
+				return true
+			}
+			lo := len(s.Stack) - len(is.stack)
+			for i := range is.stack {
+				if is.stack[i].Cmp(s.Stack[lo+i]) != 0 {
+					pre("stack", stackStr(s.Stack), stackStr(is.stack))
+					return true
+				}
+			}
+			if is.gas != s.Gas { // a consequence of earlier charges; those were compared, so this is drift across an instruction
+				pre("gas before next instruction", fmt.Sprint(s.Gas), fmt.Sprint(is.gas))
+				return true
+			}
+			return false
+		}
 		if s.Index >= len(impl.tr.steps) {
-			// the real EVM stopped although the specification executes this instruction
+			// the real EVM stopped although the specification executes this instruction: first see whether it
+			// stopped on a state the previous instruction got wrong
+			if s.Index == len(impl.tr.steps) && impl.tr.failStep != nil && preState(impl.tr.failStep) {
+				return
+			}
 			if havePrev && impl.tr.faultPC >= 0 {
 				mm = &Mismatch{Oracle: "halt", Op: prevOp, In: prevIn, Step: s.Index - 1,
 					Expect: "instruction completes", Got: fmt.Sprintf("execution error: %v", impl.err)}
@@ -265,31 +304,7 @@ func compare(c Case, warm bool) (*Mismatch, *refevm.Result, *implOut) {
 			return
 		}
 		is := impl.tr.steps[s.Index]
-		// state produced by the previous instruction
-		pre := func(what, exp, got string) {
-			o, oin := prevOp, prevIn
-			if !havePrev {
-				o, oin = s.Op, in
-			}
-			mm = &Mismatch{Oracle: "result", Op: o, In: oin, Step: s.Index - 1, Expect: what + " " + exp, Got: what + " " + got}
-		}
-		if is.pc != s.PC || is.op != s.Op {
-			pre("next pc/op", fmt.Sprintf("%d/%s", s.PC, opName(s.Op)), fmt.Sprintf("%d/%s", is.pc, opName(is.op)))
-			return
-		}
-		if is.stackLen != len(s.Stack) {
-			pre("stack", stackStr(s.Stack), fmt.Sprintf("len=%d", is.stackLen))
-			return
-		}
-		lo := len(s.Stack) - len(is.stack)
-		for i := range is.stack {
-			if is.stack[i].Cmp(s.Stack[lo+i]) != 0 {
-				pre("stack", stackStr(s.Stack), stackStr(is.stack))
-				return
-			}
-		}
-		if is.gas != s.Gas { // gas before: a consequence of earlier charges; those were compared, so this is GAS-less drift
-			pre("gas before next instruction", fmt.Sprint(s.Gas), fmt.Sprint(is.gas))
+		if preState(&is) {
 			return
 		}
 		// charge and expansion of this instruction
